@@ -69,11 +69,10 @@ func (c *ctx) optionDispatch() {
 					}
 				}
 			}
-			call, ok := tag.(*ast.CallExpr)
-			if !ok {
-				return true
-			}
-			if fn := astx.Callee(info, call); fn == nil || fn.Name() != "Name" || fn.Pkg() == nil || fn.Pkg().Path() != "go/types" {
+			// (the tag is the Name() of a resolved function, or a string handed on from one - a parameter of a visitor
+			// closure; what makes the switch one over option names is that its cases name option functions of
+			// package cff, checked below)
+			if t := info.TypeOf(tag); t == nil || t.Underlying().String() != "string" {
 				return true
 			}
 			var named []string
